@@ -195,15 +195,21 @@ Qed.
 Lemma kernel_eqb_eq a b : kernel_eqb a b = true -> a = b.
 Proof. destruct a, b; cbn; try discriminate; reflexivity. Qed.
 
+Lemma types_check_eq a : forall b, types_check a b = TEq -> a = b.
+Proof.
+  induction a as [|x a IH]; intros [|y b]; cbn; try discriminate; [reflexivity|].
+  destruct (x =? y) eqn:E; [|discriminate]. intros H. apply Z.eqb_eq in E. rewrite (IH _ H). congruence.
+Qed.
+Lemma types_check_refl a : types_check a a = TEq.
+Proof. induction a as [|x a IH]; cbn; [reflexivity|]. rewrite Z.eqb_refl. exact IH. Qed.
+
 Lemma find_supported_declared sks k tys :
   find_supported_with true sks k tys = DOk true -> In (mkSup k tys) sks.
 Proof.
   induction sks as [|sk sks IH]; cbn; [discriminate|].
   destruct (kernel_eqb (sk_kernel sk) k) eqn:Ek.
-  - destruct (negb (length (sk_types sk) =? length tys)%nat); [discriminate|].
-    destruct (list_eqb Z.eqb (sk_types sk) tys) eqn:Et; cbn.
-    + intros _. left. apply kernel_eqb_eq in Ek.
-      apply (list_eqb_imp Z.eqb (fun x y => proj1 (Z.eqb_eq x y))) in Et. destruct sk; cbn in *. congruence.
+  - destruct (types_check (sk_types sk) tys) eqn:Et; [| |discriminate].
+    + intros _. left. apply kernel_eqb_eq in Ek. apply types_check_eq in Et. destruct sk; cbn in *. congruence.
     + intros H. right. apply IH. exact H.
   - intros H. right. apply IH. exact H.
 Qed.
@@ -224,12 +230,9 @@ Lemma find_supported_complete sks k tys :
   In (mkSup k tys) sks -> find_supported_with true sks k tys <> DOk false.
 Proof.
   induction sks as [|sk sks IH]; cbn; [intros []|]. intros [->|Hin]; cbn.
-  - assert (Hk : kernel_eqb k k = true) by (destruct k; reflexivity). rewrite Hk, Nat.eqb_refl. cbn.
-    assert (Ht : list_eqb Z.eqb tys tys = true) by (apply list_eqb_eq; [intros; apply Z.eqb_eq|reflexivity]).
-    rewrite Ht. cbn. discriminate.
+  - assert (Hk : kernel_eqb k k = true) by (destruct k; reflexivity). rewrite Hk, types_check_refl. discriminate.
   - destruct (kernel_eqb (sk_kernel sk) k).
-    + destruct (negb (length (sk_types sk) =? length tys)%nat); [discriminate|].
-      destruct (negb (list_eqb Z.eqb (sk_types sk) tys)); cbn; [apply IH; exact Hin|discriminate].
+    + destruct (types_check (sk_types sk) tys); [discriminate|apply IH; exact Hin|discriminate].
     + apply IH. exact Hin.
 Qed.
 
